@@ -92,6 +92,23 @@ var l2CorpusPG = []corpusStmt{
 	{":many", `SELECT n.*, a.id AS aid FROM nodes n JOIN authors a ON a.id = n.id`, nil, nil, nil},
 	{":many", `SELECT id, "left", "right", "full", "like", "user", "binary" FROM nodes WHERE "left" = $1`, nil, nil, nil},
 	{":many", `SELECT id FROM authors a WHERE a.name = $1 AND a.id = $2 AND a.bio = $3 AND a.age = $4 AND a.name <> $5 AND a.id <> $6 AND a.bio <> $7 AND a.age <> $8 AND a.name > $9 AND a.id > $10 AND a.bio > $11 AND a.age > $12 AND EXISTS (SELECT 1 FROM books b WHERE b.title = $1)`, nil, nil, nil},
+	// the table's full column set in another order: same fields as the model, not the model's row
+	{":many", "SELECT name, id, tags, age, bio FROM authors", nil, nil, nil},
+	{":one", "SELECT tags, age, bio, name, id FROM authors WHERE id = $1", nil, nil, nil},
+	{":one", "INSERT INTO authors (id, name, tags) VALUES ($1, $2, $3) RETURNING bio, id, name, tags, age", nil, nil, nil},
+	{":many", "SELECT id, name, bio, age, tags FROM authors", nil, nil, nil},
+	{":one", "UPDATE venues SET name = $1 WHERE id = $2 RETURNING slug, id, name, \"order\", created_at", nil, nil, nil},
+	// a parameter-paired column that exists only in ANOTHER relation of the statement (or of the schema)
+	{":exec", "UPDATE authors SET title = $1 FROM books b WHERE b.author_id = authors.id", nil, nil, nil},
+	{":exec", "UPDATE books SET name = $1 FROM authors a WHERE a.id = books.author_id", nil, nil, nil},
+	{":exec", "UPDATE authors SET title = $1 WHERE id IN (SELECT author_id FROM books)", nil, nil, nil},
+	{":exec", "UPDATE authors SET bio = $1 WHERE id IN (SELECT author_id FROM books WHERE title = $2)", nil, nil, nil},
+	{":exec", "INSERT INTO authors (id, name, tags) VALUES ($1, $2, $3) ON CONFLICT (id) DO UPDATE SET title = $4", nil, nil, nil},
+	{":exec", "DELETE FROM authors USING books b WHERE b.author_id = authors.id AND b.title = $1", nil, nil, nil},
+	{":exec", "DELETE FROM authors USING books b WHERE b.author_id = authors.id AND authors.title = $1", nil, nil, nil},
+	{":many", "SELECT a.id FROM authors a WHERE a.title = $1", nil, nil, nil},
+	{":many", "SELECT a.id FROM authors a JOIN books b ON b.author_id = a.id WHERE a.title = $1", nil, nil, nil},
+	{":many", "SELECT a.id FROM authors a JOIN books b ON b.author_id = a.id WHERE b.title = $1 AND a.name = $2", nil, nil, nil},
 }
 
 var l2CorpusMy = []corpusStmt{
@@ -110,10 +127,16 @@ var l2CorpusMy = []corpusStmt{
 	{":many", "SELECT id, coalesce(bio, name) AS bio, CASE WHEN id > 0 THEN 'p' ELSE 'n' END AS label, count(*) FROM authors GROUP BY id, bio, name", nil, nil, nil},
 	{":many", "SELECT a.id FROM authors a JOIN authors b ON b.id = a.id WHERE b.name = ?", nil, nil, nil},
 	{":many", "SELECT id FROM authors WHERE lower(name) = lower(?) OR upper(bio) = upper(?)", nil, nil, nil},
+	{":many", "SELECT name, id, active, age, bio FROM authors", nil, nil, nil},
+	{":one", "SELECT bio, age, active, name, id FROM authors WHERE id = ?", nil, nil, nil},
+	{":many", "SELECT id, name, bio, age, active FROM authors", nil, nil, nil},
 	{":many", "SELECT first_name, note FROM staff WHERE first_name = ?", nil, [][2]string{{"staff", "first_name"}, {"staff", "note"}}, [][2]string{{"staff", "given_name"}}},
 	{":many", "SELECT given_name FROM staff WHERE given_name = ?", nil, [][2]string{{"staff", "first_name"}, {"staff", "note"}}, [][2]string{{"staff", "given_name"}}},
 	{":many", "SELECT given_name FROM people WHERE given_name = ?", nil, [][2]string{{"people", "given_name"}}, [][2]string{{"people", "first_name"}, {"people", "note"}}},
 	{":many", "SELECT * FROM staff", nil, [][2]string{{"staff", "first_name"}, {"staff", "note"}}, [][2]string{{"staff", "given_name"}}},
+	{":exec", "UPDATE authors SET title = ? WHERE id IN (SELECT author_id FROM books)", nil, nil, nil},
+	{":many", "SELECT a.id FROM authors a JOIN books b ON b.author_id = a.id WHERE a.title = ?", nil, nil, nil},
+	{":many", "SELECT a.id FROM authors a JOIN books b ON b.author_id = a.id WHERE b.title = ? AND a.name = ?", nil, nil, nil},
 }
 
 func l2Corpus(emitCase func(id, engine, schema string, q QStmt, has, gone [][2]string)) {
